@@ -35,8 +35,8 @@ IsLatest == ev.ev = "Latest"
 HarnessWorker == IsLatest => (~ev.stuck /\ ev.src \in {"own", "kick", "recv"} /\ (ev.src = "recv" => ev.tid > 0))
 
 (* C41: the ticket a node reports never has a lower round than one it reported before *)
-C41_Monotone == IsLatest => ev.round >= prev
+C41_Monotone == (IsLatest /\ ~IsKnown(ev)) => ev.round >= prev
 
 (* C41: it only adopts received tickets signed by a sharder of the current magic block *)
-C41_Authentic == (IsLatest /\ ev.src = "recv") => (ev.in_mb_sharders /\ ev.sig_ok)
+C41_Authentic == (IsLatest /\ ~IsKnown(ev) /\ ev.src = "recv") => (ev.in_mb_sharders /\ ev.sig_ok)
 =============================================================================
